@@ -9,6 +9,7 @@ package main
 import (
 	"encoding/json"
 	"fmt"
+	"os"
 	"strings"
 
 	"verifharness/pkg/hx"
@@ -109,6 +110,147 @@ func genFault(r *hx.Rand, a *Assets, where []location) (*Assets, string) {
 
 type location struct{ Flow, Node int }
 
+// runHistory continues a started history: either with generated ops (fixed == nil) or with the given ones
+func runHistory(prop string, r *hx.Rand, h *History, w *world, first *CallObs, a *Assets, res *hx.Result, fixed []Op) []*CallObs {
+	var calls []*CallObs
+	if first.Kind == 9 {
+		res.Fail("harness:assets-not-loadable", h.Assets.JSON(), first.Err)
+		return nil
+	}
+	calls = append(calls, first)
+	st5 := &c05state{}
+	runOracle := func(ci int, c *CallObs) {
+		switch prop {
+		case "C01":
+			oracleC01(h, ci, c, res)
+		case "C05":
+			oracleC05(h, ci, c, res, st5)
+		case "C10":
+			oracleC10(h, ci, c, res)
+		}
+	}
+	runOracle(0, first)
+	s := first.Session
+	cur := a
+	alive := first.Kind == 0 || first.Kind == 1
+	if fixed != nil {
+		for k := 0; k < len(fixed) && alive; k++ {
+			op := fixed[k]
+			obs, s2 := w.resume(s, &op)
+			h.Ops = append(h.Ops, op)
+			if obs.Kind == 9 {
+				res.Fail("harness:"+strings.SplitN(obs.Err, ":", 2)[0], historyJSON(h), obs.Err)
+				break
+			}
+			s = s2
+			calls = append(calls, obs)
+			runOracle(len(calls)-1, obs)
+			if obs.Kind != 0 && obs.Kind != 1 {
+				alive = false
+			}
+		}
+		return calls
+	}
+	nops := r.Intn(9)
+	if prop == "C10" {
+		nops = r.Range(1, 8)
+	}
+	extra := r.Chance(1, 3)
+	for k := 0; k < nops && alive; k++ {
+		if s != nil && s.Status() != "waiting" {
+			// the session is over: at most one more resume (it must be rejected with 101)
+			if !extra {
+				break
+			}
+			extra = false
+		}
+		op := genOp(r, prop)
+		if prop == "C10" && s != nil {
+			if r.Chance(1, 4) {
+				var where []location
+				for _, run := range s.Runs() {
+					if len(run.Path()) > 0 {
+						st := run.Path()[len(run.Path())-1]
+						where = append(where, location{idOf(string(run.FlowReference().UUID)), idOf(string(st.NodeUUID()))})
+					}
+				}
+				if fa, desc := genFault(r, cur, where); fa != nil {
+					op.Assets, op.Fault = fa, desc
+					cur = fa
+				}
+			} else if r.Chance(1, 25) && op.Kind == "msg" {
+				op.Kind = "tamper"
+				op.Restart = true
+			}
+		}
+		obs, s2 := w.resume(s, &op)
+		h.Ops = append(h.Ops, op)
+		if obs.Kind == 9 {
+			res.Fail("harness:"+strings.SplitN(obs.Err, ":", 2)[0], historyJSON(h), obs.Err)
+			break
+		}
+		s = s2
+		calls = append(calls, obs)
+		runOracle(len(calls)-1, obs)
+		if obs.Kind != 0 && obs.Kind != 1 {
+			alive = false
+		}
+	}
+	return calls
+}
+
+// replayInput rebuilds a history from the "input" of a replay file (failing_input or first_mismatching_case)
+func replayInput(path string) (*History, []Op, error) {
+	raw, err := os.ReadFile(path)
+	if err != nil {
+		return nil, nil, err
+	}
+	var rj struct {
+		FailingInput struct {
+			Input json.RawMessage `json:"input"`
+		} `json:"failing_input"`
+		FirstMismatch struct {
+			Input json.RawMessage `json:"input"`
+		} `json:"first_mismatching_case"`
+	}
+	if err := json.Unmarshal(raw, &rj); err != nil {
+		return nil, nil, err
+	}
+	in := rj.FailingInput.Input
+	if len(in) == 0 {
+		in = rj.FirstMismatch.Input
+	}
+	if len(in) == 0 {
+		return nil, nil, fmt.Errorf("no input in replay file")
+	}
+	var hin struct {
+		CFL     *Assets `json:"cfl"`
+		Trigger Trigger `json:"trigger"`
+		Ops     []struct {
+			Kind     string  `json:"kind"`
+			Text     string  `json:"text"`
+			Fault    string  `json:"fault"`
+			CFLAfter *Assets `json:"cfl_after"`
+		} `json:"ops"`
+	}
+	if err := json.Unmarshal(in, &hin); err != nil {
+		return nil, nil, err
+	}
+	if hin.CFL == nil {
+		return nil, nil, fmt.Errorf("replay input has no cfl member")
+	}
+	h := &History{Assets: hin.CFL, Trigger: hin.Trigger}
+	ops := []Op{}
+	for _, o := range hin.Ops {
+		op := Op{Kind: o.Kind, Text: o.Text, Fault: o.Fault, Assets: o.CFLAfter}
+		if o.Kind == "tamper" {
+			op.Restart = true
+		}
+		ops = append(ops, op)
+	}
+	return h, ops, nil
+}
+
 func main() {
 	o := hx.ParseOpts()
 	prop := o.Prop
@@ -140,82 +282,7 @@ func main() {
 	}
 	header := "From Coq Require Import List NArith ZArith Bool.\nFrom Verif Require Import model.Lang model.Engine model.EngineCorr.\nImport ListNotations.\nOpen Scope N_scope.\nDefinition cases : list hcase := ["
 
-	for i := 0; i < n; i++ {
-		r := rnd.Fork(fmt.Sprintf("case%d", i))
-		resetSources(int64(o.Seed)*100003 + int64(i))
-		a := genAssets(r, cfg)
-		h := &History{Assets: a, Trigger: genTrigger(r, a)}
-		w := &world{}
-		var calls []*CallObs
-		first := w.start(h)
-		if first.Kind == 9 {
-			res.Fail("harness:assets-not-loadable", h.Assets.JSON(), first.Err)
-			continue
-		}
-		calls = append(calls, first)
-		st5 := &c05state{}
-		runOracle := func(ci int, c *CallObs) {
-			switch prop {
-			case "C01":
-				oracleC01(h, ci, c, res)
-			case "C05":
-				oracleC05(h, ci, c, res, st5)
-			case "C10":
-				oracleC10(h, ci, c, res)
-			}
-		}
-		runOracle(0, first)
-		s := first.Session
-		cur := a
-		nops := r.Intn(9)
-		if prop == "C10" {
-			nops = r.Range(1, 8)
-		}
-		alive := first.Kind == 0 || first.Kind == 1
-		extra := r.Chance(1, 3)
-		for k := 0; k < nops && alive; k++ {
-			if s != nil && s.Status() != "waiting" {
-				// the session is over: at most one more resume (it must be rejected with 101)
-				if !extra {
-					break
-				}
-				extra = false
-			}
-			op := genOp(r, prop)
-			if prop == "C10" && s != nil {
-				if r.Chance(1, 4) {
-					var where []location
-					for _, run := range s.Runs() {
-						if len(run.Path()) > 0 {
-							st := run.Path()[len(run.Path())-1]
-							where = append(where, location{idOf(string(run.FlowReference().UUID)), idOf(string(st.NodeUUID()))})
-						}
-					}
-					if fa, desc := genFault(r, cur, where); fa != nil {
-						op.Assets, op.Fault = fa, desc
-						cur = fa
-					}
-				} else if r.Chance(1, 25) && op.Kind == "msg" {
-					op.Kind = "tamper"
-					op.Restart = true
-				}
-			}
-			obs, s2 := w.resume(s, &op)
-			h.Ops = append(h.Ops, op)
-			if obs.Kind == 9 {
-				res.Fail("harness:"+strings.SplitN(obs.Err, ":", 2)[0], historyJSON(h), obs.Err)
-				alive = false
-				break
-			}
-			s = s2
-			calls = append(calls, obs)
-			runOracle(len(calls)-1, obs)
-			if obs.Kind != 0 && obs.Kind != 1 {
-				alive = false
-			}
-		}
-
-		// statistics and oracle
+	emit := func(i int, h *History, calls []*CallObs) {
 		key, _ := json.Marshal(historyJSON(h))
 		nontrivial := classify(prop, h, calls, res)
 		res.Eval(string(key), nontrivial)
@@ -238,6 +305,46 @@ func main() {
 			flush()
 		}
 	}
+
+	if o.Replay != "" {
+		// re-run exactly the recorded history (a replay file without an input, e.g. for a broken proof,
+		// falls through to the normal run of the recorded seed)
+		if h, ops, err := replayInput(o.Replay); err == nil {
+			resetSources(1)
+			w := &world{}
+			first := w.start(h)
+			if calls := runHistory(prop, nil, h, w, first, h.Assets, res, ops); calls != nil {
+				emit(0, h, calls)
+			}
+			flush()
+			res.Write(o)
+			return
+		}
+	}
+
+	for i := 0; i < n; i++ {
+		r := rnd.Fork(fmt.Sprintf("case%d", i))
+		resetSources(int64(o.Seed)*100003 + int64(i))
+		// histories that end in their first sprint say little about resumes: C10 (and, less strongly,
+		// C01) draw again a few times when the session is not waiting after the trigger
+		tries := map[string]int{"C10": 6, "C01": 2}[prop]
+		var a *Assets
+		var h *History
+		var w *world
+		var first *CallObs
+		for t := 0; ; t++ {
+			a = genAssets(r, cfg)
+			h = &History{Assets: a, Trigger: genTrigger(r, a)}
+			w = &world{}
+			first = w.start(h)
+			if t+1 >= tries || first.Kind != 0 || first.Session.Status() == "waiting" || r.Chance(1, 5) {
+				break
+			}
+		}
+		if calls := runHistory(prop, r, h, w, first, a, res, nil); calls != nil {
+			emit(i, h, calls)
+		}
+	}
 	flush()
 	res.Write(o)
 }
@@ -252,10 +359,11 @@ func historyJSON(h *History) map[string]any {
 		if op.Fault != "" {
 			m["fault"] = op.Fault
 			m["assets_after"] = json.RawMessage(op.Assets.JSON())
+			m["cfl_after"] = op.Assets
 		}
 		ops = append(ops, m)
 	}
-	return map[string]any{"assets": json.RawMessage(h.Assets.JSON()), "options": h.Assets.Opts, "trigger": h.Trigger, "ops": ops}
+	return map[string]any{"assets": json.RawMessage(h.Assets.JSON()), "options": h.Assets.Opts, "trigger": h.Trigger, "ops": ops, "cfl": h.Assets}
 }
 
 func summarize(calls []*CallObs) []any {
@@ -268,10 +376,8 @@ func summarize(calls []*CallObs) []any {
 		if c.Err != "" {
 			m["error"] = c.Err
 		}
-		if c.Session != nil && c.Kind == 0 {
-			m["status"] = string(c.Session.Status())
-			m["runs"] = len(c.Session.Runs())
-			m["events"] = len(c.Sprint.Events())
+		if c.Kind == 0 {
+			m["status"], m["runs"], m["events"] = c.StatusAfter, c.RunsAfter, c.EventsInSprint
 		}
 		out = append(out, m)
 	}
